@@ -163,6 +163,32 @@ func (r relationSlice) ToRelationIDsForUnsafe(world *World, out []relationID) []
 	return out
 }
 
+// ToCheckedRelationIDsForUnsafe converts a slice of Relation items from the unsafe API to relationIDs,
+// checking relation components and targets like the type-safe API does.
+//
+// If ids is not nil, each relation must refer to one of the given (added) components.
+func (r relationSlice) ToCheckedRelationIDsForUnsafe(world *World, ids []ID, out []relationID) []relationID {
+	for _, rel := range r {
+		relID := rel.relationIDForUnsafe(world)
+		world.storage.checkRelationTarget(relID.target)
+		world.storage.checkRelationComponent(relID.component)
+		if ids != nil && !containsID(ids, relID.component) {
+			panic(fmt.Sprintf("relation component with ID %d is not among the added components", relID.component.id))
+		}
+		out = append(out, relID)
+	}
+	return out
+}
+
+func containsID(ids []ID, id ID) bool {
+	for _, i := range ids {
+		if i.id == id.id {
+			return true
+		}
+	}
+	return false
+}
+
 // toRelation converts an entity and a component ID to relationIDs.
 func toRelation(world *World, e Entity, id ID, out []relationID) []relationID {
 	world.storage.checkRelationTarget(e)
